@@ -64,4 +64,15 @@ def handleErrPage (l : Line) : List Verdict :=
     pure (verdictsOf [] ((if bad != "" then [("C15.unescaped", bad)] else []) ++ (if !nocache then [("C15.cacheable", "error page lacks no-store")] else [])))
   r.getD [Verdict.bad "errpage"]
 
+/-- every response wonderwall generates on an owned endpoint is non-cacheable - including the rate limiter's 429 -/
+def handleOwnCache (l : Line) : List Verdict :=
+  let r : Option (List Verdict) := do
+    let ep ← l.str? "ep"
+    let n ← l.nat? "n"
+    let status ← l.nat? "status"
+    let cc ← l.str? "cc"
+    let nocache ← l.bool? "nocache"
+    pure (verdictsOf [] (if !nocache then [("C15.cacheable", s!"visit {n + 1} of {ep} with a session, rate limit on: answered {status} with Cache-Control '{cc}' (neither no-store nor no-cache)")] else []))
+  r.getD [Verdict.bad "owncache"]
+
 end Ww.Driver
